@@ -273,7 +273,7 @@ def _enc(o):
     if isinstance(o, lena.structures.histogram):
         return {"hist": {"edges": _enc(o.edges), "bins": _enc(o.bins), "n_out": _enc(o.n_out_of_range)}}
     if isinstance(o, lena.structures.Graph):
-        return {"graph": {"pts": _enc(list(o._points)), "scale": _enc(o._scale)}}
+        return {"graph": {"pts": _enc(list(o.points))}}       # the public `points`; the scale shows in the yielded context
     return {"obj": type(o).__name__}
 
 
@@ -341,8 +341,6 @@ def run_impl(case):
         return {"init_err": exc_name(e)}
     eqs = {}
     res = {"obs": _run_ops(el, spec, ops, eqs), "fresh": {}, "eq": eqs}
-    if spec["k"] == "dsum":
-        res["prec"] = el._dcontext.prec
     # reset-equals-fresh: after every reset, the rest of the history on a newly constructed element
     for i, op in enumerate(ops):
         if op[0] == "r" and i + 1 < len(ops) and res["obs"][i] == "r":
@@ -365,7 +363,7 @@ def _graph_reset_restores_scale():
     g.fill(((0, 0), {"scale": 5}))
     list(g.compute())
     g.reset()
-    return g._scale is None
+    return list(g.compute())[0][1].get("scale") is None
 
 
 def _leaf_table(case):
@@ -463,9 +461,7 @@ def _main_requests(case):
     elif k == "sum":
         el = {"k": "sum", "total0": _scaled(spec["total0"], sh)}
     elif k == "dsum":
-        t0 = decimal.Decimal(_num(spec["total0"])).as_tuple()
-        coef = int("".join(map(str, t0.digits))) * (-1 if t0.sign else 1)
-        el = {"k": "dsum", "total0": [coef, t0.exponent]}
+        el = {"k": "dsum", "total0": _dyadic(spec["total0"])}      # Decimal(total) is modelled (Dec.ofDy)
     elif k == "mean" and spec["seq"] == "dsum":
         el = {"k": "meand", "poe": spec["poe"]}
     elif k in ("mean", "vmc", "store"):
@@ -635,6 +631,9 @@ def model_requests(case):
     return _main_requests(case) + _spec_requests(case)
 
 
+_ULP = Fraction(1, 2 ** 52)
+
+
 class _Mismatch(Exception):
     pass
 
@@ -686,24 +685,13 @@ def _rdiv(num, den):
     return num / den
 
 
-def _vmc_floats(var_q, mean_q, n, corrected, sh):
-    """the implementation's float evaluation of VarianceMeanCount.compute from the exact sums:
-    mean_sq = S2/n; mean = S/n; var = mean_sq - mean**2; var *= n/float(n-1)"""
-    mean = Fraction(mean_q[0], mean_q[1])                 # scaled by 2**sh
-    var = Fraction(var_q[0], var_q[1])                    # scaled by 2**(2 sh)
-    var_unc = var * Fraction(n - 1, n) if corrected else var
-    s = mean * n
-    s2 = (var_unc + mean * mean) * n
-    s_v = float(s / (1 << sh))
-    s2_v = float(s2 / (1 << (2 * sh)))
-    if Fraction(s_v) != s / (1 << sh) or Fraction(s2_v) != s2 / (1 << (2 * sh)):
-        raise _Mismatch("sums of the case are not exactly representable (generator bug)")
-    mean_sq_f = s2_v / float(n)
-    mean_f = s_v / float(n)
-    var_f = mean_sq_f - mean_f ** 2
-    if corrected:
-        var_f *= n / float(n - 1)
-    return var_f, mean_f
+def _near(got, exact, bound, what):
+    """the implementation's float against the model's exact rational: rounding is outside the model (DESIGN 8), so
+    the comparison allows the forward error bound of a float evaluation, not more"""
+    if not (isinstance(got, dict) and "fl" in got):
+        raise _Mismatch(f"{what} {got} is not a float")
+    if abs(Fraction(float.fromhex(got["fl"])) - exact) > bound:
+        raise _Mismatch(f"{what} {float.fromhex(got['fl'])!r} differs from the model's exact {exact} by more than {float(bound)!r}")
 
 
 def _vec_row(d):
@@ -749,15 +737,8 @@ def _conv_out(kind, spec, e, sh, tab, m):
             if c is not None:
                 r["c"] = _impl_ctx(c, tab)
             return r
-        if spec.get("seq") == "dsum":
-            n = m.get("__n")           # float(Decimal total) / float(count): two roundings
-            ref = float(Fraction(md[0], md[1]) * n) / float(n)
-        elif spec.get("seq") == "count":
-            ref = _rdiv(md[0], md[1])  # a count is not scaled
-        else:
-            ref = _rdiv(md[0], md[1] << sh)
-        if not (isinstance(d, dict) and "fl" in d and float.fromhex(d["fl"]) == ref):
-            raise _Mismatch(f"mean {d} is not the rounded value {ref.hex()} of the model's {md[0]}/{md[1]} / 2**{sh}")
+        exact = Fraction(md[0], md[1]) if spec.get("seq") in ("dsum", "count") else Fraction(md[0], md[1] << sh)
+        _near(d, exact, 4 * _ULP * abs(exact), "mean")
         r = {"d": md}
         if c is not None:
             r["c"] = _impl_ctx(c, tab)
@@ -772,11 +753,13 @@ def _conv_out(kind, spec, e, sh, tab, m):
         f = d["f"]
         if f["count"] != md["count"]:
             raise _Mismatch(f"count {f['count']} vs model {md['count']}")
-        var_f, mean_f = _vmc_floats(md["var"], md["mean"], md["count"], spec["corrected"], sh)
-        for name, ref in (("variance", var_f), ("mean", mean_f)):
-            got = f[name]
-            if not (isinstance(got, dict) and "fl" in got and float.fromhex(got["fl"]) == ref):
-                raise _Mismatch(f"{name} {got} is not the float evaluation {ref.hex()} of the model's exact sums")
+        n = md["count"]
+        mean = Fraction(md["mean"][0], md["mean"][1] << sh)
+        var = Fraction(md["var"][0], md["var"][1] << (2 * sh))
+        rr = Fraction(n, n - 1) if spec["corrected"] else Fraction(1)
+        m2 = var / rr + mean * mean                    # the mean of the squares
+        _near(f["mean"], mean, 4 * _ULP * abs(mean), "mean")
+        _near(f["variance"], var, 16 * Fraction(1, 2 ** 53) * rr * (m2 + mean * mean), "variance")
         r = {"d": md}
         if c is not None:
             r["c"] = _impl_ctx(c, tab)
@@ -836,7 +819,7 @@ def _conv_out(kind, spec, e, sh, tab, m):
             raise _Mismatch(f"Graph yielded {e}, not a (graph, context) pair")
         g = d["graph"]
         pts = [[_int_scaled(p["t"][0], sh), _int_scaled(p["t"][1], sh)] for p in g["pts"]["l"]]
-        return {"pts": pts, "scale": g["scale"], "c": _impl_ctx(c, tab)}
+        return {"pts": pts, "scale": c.get("scale"), "c": _impl_ctx(c, tab)}
     raise ValueError(kind)
 
 
@@ -937,19 +920,38 @@ def _compare_one(case, res, m):
                 cz = {kk: vv for kk, vv in cz.items() if kk not in ("__n", "__ns", "__idx")}
             if cy != cz:
                 return f"op {i} compute: impl {cy} vs model {cz}"
-    if kind == "dsum" and res.get("prec") != m.get("prec"):
-        return f"final decimal precision: impl {res.get('prec')} vs model {m.get('prec')}"
     return None
 
 
 # ----------------------------------------------------------------------------------------
 # the direct oracle: the property's statement on the real code's observations
 
-_ULP = Fraction(1, 2 ** 52)
 
 
 def _plain(e):
     """decimals by value, everything else as encoded: the form in which reset-vs-fresh observations are compared"""
+    return e
+
+
+def _by_value(e):
+    """an encoded observation with every number replaced by its value (1, 1.0 and Decimal(1) are one observation)"""
+    if isinstance(e, bool) or e is None or isinstance(e, str):
+        return e
+    if isinstance(e, int):
+        return ["#", e, 1]
+    if isinstance(e, dict):
+        if "fl" in e and len(e) == 1:
+            x = float.fromhex(e["fl"])
+            if x != x or x in (float("inf"), float("-inf")):
+                return ["#", repr(x)]
+            f = Fraction(x)
+            return ["#", f.numerator, f.denominator]
+        if "dec" in e and len(e) == 1 and isinstance(e["dec"], list):
+            f = Fraction(e["dec"][0], e["dec"][1])
+            return ["#", f.numerator, f.denominator]
+        return {k: _by_value(v) for k, v in e.items()}
+    if isinstance(e, list):
+        return [_by_value(x) for x in e]
     return e
 
 
@@ -997,8 +999,6 @@ def _agg_fail(spec, e, fills, start, zero):
             return str(ex)
         if got != exact:
             return f"{'DSum' if k == 'dsum' else 'Sum'} yields {d} = {got}, the exact sum of the filled values is {exact}"
-        if k == "dsum" and not (isinstance(d, dict) and "dec" in d):
-            return f"DSum yields {d}, not a Decimal"
         if not ctx_ok(c):
             return f"{k} yields context {c}; the last filled context is {want_ctx}"
         return None
@@ -1098,7 +1098,7 @@ def _agg_fail(spec, e, fills, start, zero):
             return f"Histogram yields {d}, not a histogram"
         bins, n_out = _ref_hist(spec, fills)
         h = d["hist"]
-        if h["bins"] != _enc(bins) or h["n_out"] != n_out:
+        if _by_value(h["bins"]) != _by_value(_enc(bins)) or _by_value(h["n_out"]) != _by_value(n_out):
             return (f"Histogram yields bins {h['bins']} n_out_of_range {h['n_out']}; filling {[v['d'] for v in fills]} into "
                     f"edges {spec['edges']} gives bins {bins}, {n_out} out of range")
         if not ctx_ok(c):
@@ -1230,10 +1230,6 @@ def oracle(case, res):
         bad = _oracle_countrun(spec, ops, obs)
         if bad:
             return bad
-    for si, ok in res.get("eq", {}).items():
-        if ok is not True:
-            return (f"after reset() (op {si}) `element == newly constructed element` is {ok} "
-                    f"(history {_show(ops[:int(si) + 1])})")
     # 1. the documented aggregate, for every compute whose preceding fills (since construction / the last reset) all succeeded
     fills, zero, clean = [], False, True
     gscale = spec.get("scale0")            # Graph: the scale a newly constructed graph has
@@ -1298,8 +1294,8 @@ def oracle(case, res):
     for si, fobs in res.get("fresh", {}).items():
         i = int(si)
         got = obs[i + 1:]
-        if got != fobs:
-            j = next(jj for jj in range(len(fobs)) if jj >= len(got) or got[jj] != fobs[jj])
+        if _by_value(got) != _by_value(fobs):
+            j = next(jj for jj in range(len(fobs)) if jj >= len(got) or _by_value(got[jj]) != _by_value(fobs[jj]))
             return (f"after reset() (op {i}) the element differs from a newly constructed one: op {i + 1 + j} "
                     f"{_show([ops[i + 1 + j]])} gives {got[j] if j < len(got) else None}, a fresh element gives {fobs[j]} "
                     f"(history {_show(ops)})")
@@ -1551,6 +1547,7 @@ def _specs_small():
     out.append(({"k": "sum", "total0": _mknum(1.5)}, 1, [v(_mknum(0.5), {"a": 1}), v(2)]))
     out.append(({"k": "dsum", "total0": 0}, 0, [v(_mknum(0.1), {"a": 1}), v(_mknum(1e100))]))
     out.append(({"k": "dsum", "total0": 2}, 0, [v(_mknum(5e-324)), v(_mknum(-1e100), {"b": 2})]))
+    out.append(({"k": "dsum", "total0": _mknum(0.1)}, 0, [v(_mknum(0.2)), v(_mknum(1e23), {"b": 2})]))
     for seq in (None, "sum", "dsum"):
         for poe in (False, True):
             out.append(({"k": "mean", "seq": seq, "poe": poe}, 0, [v(3, {"a": 1}), v(4)]))
@@ -1671,7 +1668,8 @@ def _rand_case(rng, maxlen):
             mk = lambda: {"d": _rand_num(rng, sh, rng.choice([4, 20, 44 - sh])), "c": ctx()}
     elif kind == "dsum":
         sh = 0
-        spec = {"k": "dsum", "total0": rng.choice([0, 0, 0, 7, _mknum(0.5)])}
+        spec = {"k": "dsum", "total0": rng.choice([0, 0, 0, 7, _mknum(0.5), _mknum(0.1), _mknum(5e-324), _mknum(1e23),
+                                                   _mknum(-2.5e-7), 10 ** 25])}
         pool = []
 
         def mk():
